@@ -18,12 +18,20 @@ type GenOpts struct {
 	Let    bool // let-transforms
 	// NegAnywhere places negated atoms at random positions of the body (analysis delays them).
 	NegAnywhere bool
+	// IdbFacts gives some intensional predicates ground facts of their own (in the text or pre-loaded).
+	IdbFacts bool
+	// FactsAfter prints some of the facts of the text after the rules (the usual style is facts first).
+	FactsAfter bool
+	// NegFront writes all negated atoms of some rules first, before every atom that binds their variables,
+	// and gives such rules up to four positive atoms (analysis has to delay and release them one by one).
+	NegFront bool
 	// MaxRulesPerPred, MaxIDB bound the size (defaults 3 and 4).
 	MaxRulesPerPred, MaxIDB int
 }
 
 // AllFeatures enables everything C01 covers.
-var AllFeatures = GenOpts{Neg: true, Cmp: true, Neq: true, Eq: true, Arith: true, Struct: true, Let: true, NegAnywhere: true}
+var AllFeatures = GenOpts{Neg: true, Cmp: true, Neq: true, Eq: true, Arith: true, Struct: true, Let: true, NegAnywhere: true,
+	IdbFacts: true, FactsAfter: true, NegFront: true}
 
 // Column types: n number, a name, p pair(n, n), l list of numbers.
 type PredInfo struct {
@@ -183,6 +191,30 @@ func gen(t *rapid.T, o GenOpts) Generated {
 			g.Prog.Rules = append(g.Prog.Rules, genRule(t, o, g.Schema, h, k == 0, labels))
 		}
 	}
+	// facts of intensional predicates: a predicate may have both rules and base facts
+	if o.IdbFacts {
+		for _, p := range g.Schema {
+			if p.Level < 0 || rapid.IntRange(0, 4).Draw(t, "idbFacts") != 0 {
+				continue
+			}
+			for f, nf := 0, rapid.IntRange(1, 2).Draw(t, "nIdbFacts"); f < nf; f++ {
+				a := Atom{Pred: p.Name, Args: []Term{}}
+				for c := 0; c < len(p.Cols); c++ {
+					a.Args = append(a.Args, Const(genValue(t, p.Cols[c])))
+				}
+				if rapid.IntRange(0, 9).Draw(t, "idbInText") < 7 {
+					g.Prog.Facts = append(g.Prog.Facts, a)
+				} else {
+					g.Extra = append(g.Extra, a)
+				}
+			}
+			labels["idb-facts"] = true
+		}
+	}
+	if o.FactsAfter && len(g.Prog.Facts) > 0 && rapid.IntRange(0, 2).Draw(t, "factsAfter") == 0 {
+		g.Prog.FactsAfter = rapid.IntRange(1, len(g.Prog.Facts)).Draw(t, "nFactsAfter")
+		labels["facts-after-rules"] = true
+	}
 	for l := range labels {
 		g.Labels = append(g.Labels, l)
 	}
@@ -202,6 +234,10 @@ func genRule(t *rapid.T, o GenOpts, schema []PredInfo, h PredInfo, exitRule bool
 	var body []Lit
 	// positive atoms
 	nPos := rapid.SampledFrom([]int{1, 1, 2, 2, 2, 3}).Draw(t, "nPos")
+	negFront := o.NegFront && o.Neg && len(lower) > 0 && rapid.IntRange(0, 7).Draw(t, "negFront") == 0
+	if negFront {
+		nPos = rapid.SampledFrom([]int{2, 3, 3, 4}).Draw(t, "nPosNegFront")
+	}
 	nSame := 0
 	for i := 0; i < nPos; i++ {
 		var p PredInfo
@@ -344,8 +380,15 @@ func genRule(t *rapid.T, o GenOpts, schema []PredInfo, h PredInfo, exitRule bool
 	}
 	// filters: comparisons, inequalities, equalities between bound things
 	nFil := rapid.SampledFrom([]int{0, 0, 1, 1, 2, 2, 3}).Draw(t, "nFilter")
+	if negFront {
+		nFil = rapid.IntRange(2, 4).Draw(t, "nFilterNegFront")
+	}
 	for i := 0; i < nFil; i++ {
-		switch kind := rapid.SampledFrom([]int{0, 0, 1, 1, 2, 3, 3, 3, 4}).Draw(t, "filKind"); {
+		kinds := []int{0, 0, 1, 1, 2, 3, 3, 3, 4}
+		if negFront {
+			kinds = []int{0, 1, 3, 3, 3, 3, 3, 3}
+		}
+		switch kind := rapid.SampledFrom(kinds).Draw(t, "filKind"); {
 		case kind == 4 && o.Eq && o.Arith && len(g.bound['n']) > 0:
 			// a constant (or bound variable) compared with a function expression, on either side
 			x := rapid.SampledFrom(g.bound['n']).Draw(t, "efx")
@@ -432,7 +475,25 @@ func genRule(t *rapid.T, o GenOpts, schema []PredInfo, h PredInfo, exitRule bool
 	// assemble: positives and definitions (in dependency order), then guards and filters;
 	// negated atoms optionally anywhere.
 	tail := append(append([]Lit{}, guards...), filters...)
-	if o.NegAnywhere {
+	if negFront {
+		// every negated atom goes first, in the order drawn (their variables are bound by later atoms only)
+		var negs, rest []Lit
+		for _, l := range tail {
+			if l.K == LNeg {
+				negs = append(negs, l)
+			} else {
+				rest = append(rest, l)
+			}
+		}
+		if len(negs) > 0 {
+			labels["neg-early"] = true
+		}
+		if len(negs) >= 2 {
+			labels["neg-front>=2"] = true
+		}
+		body = append(negs, body...)
+		tail = rest
+	} else if o.NegAnywhere {
 		var rest []Lit
 		for _, l := range tail {
 			if l.K == LNeg && rapid.Bool().Draw(t, "negEarly") {
